@@ -43,6 +43,43 @@ type modLoc struct {
 	typ  types.Type
 	lo   *Term // mem: index window [lo, hi) in backing-array coordinates
 	hi   *Term
+	guard *Term                // location is modified only if guard holds (nil: always)
+	fids []int                 // each: affected field ids
+	cond func(obj *Term) *Term // each: membership condition (pre-state)
+}
+
+// eachTarget says whether the cell address a belongs to the "each" location m (a may be a bound variable).
+func eachTarget(m modLoc, a *Term) *Term {
+	if a.Op == "emb" {
+		f := a.Args[1]
+		if f.Op == "int" {
+			fid := f.Int.Int64()
+			if fid >= 100000 && a.Args[0].Op == "emb" {
+				return eachTarget(m, a.Args[0])
+			}
+			for _, x := range m.fids {
+				if int64(x) == fid {
+					return m.cond(a.Args[0])
+				}
+			}
+			return False
+		}
+	}
+	if a.Op == "obj" || a.Op == "elem" || a.Op == "nil" {
+		return False
+	}
+	// generic (symbolic address)
+	isEmb := mk("isemb", BoolSort, a)
+	fld := mk("efld", IntSort, a)
+	par := mk("eparent", RefSort, a)
+	sub := And(Ge(fld, IntLit(100000)), mk("isemb", BoolSort, par))
+	owner := Ite(sub, mk("eparent", RefSort, par), par)
+	fid := Ite(sub, mk("efld", IntSort, par), fld)
+	var fs []*Term
+	for _, x := range m.fids {
+		fs = append(fs, Eq(fid, IntLit(int64(x))))
+	}
+	return And(isEmb, Or(fs...), m.cond(owner))
 }
 
 type State struct {
@@ -817,7 +854,11 @@ func (fv *FV) frameAlts(st *State, addr *Term, isElem bool, lo, hi *Term) *Term 
 		switch m.kind {
 		case "cell", "gcell":
 			if !isElem {
-				alts = append(alts, Eq(addr, m.addr))
+				if m.guard != nil {
+					alts = append(alts, And(m.guard, Eq(addr, m.addr)))
+				} else {
+					alts = append(alts, Eq(addr, m.addr))
+				}
 			}
 		case "fields":
 			if !isElem {
@@ -826,6 +867,10 @@ func (fv *FV) frameAlts(st *State, addr *Term, isElem bool, lo, hi *Term) *Term 
 					p = p.Args[0]
 					alts = append(alts, Eq(p, m.addr))
 				}
+			}
+		case "each":
+			if !isElem {
+				alts = append(alts, eachTarget(m, addr))
 			}
 		case "mem":
 			if isElem {
@@ -1136,7 +1181,13 @@ func (fv *FV) binop(st *State, op token.Token, xv, yv Value, xt, yt, rt types.Ty
 			return Scalar{fv.wrap(r, rt)}
 		}
 		lo, hi := fv.intRange(rt)
-		fv.oblige(st, fmt.Sprintf("no-overflow #%d", fv.ordinal("no-overflow", in)), And(Le(IntBig(lo), r), Le(r, IntBig(hi))), pos)
+		inr := And(Le(IntBig(lo), r), Le(r, IntBig(hi)))
+		if fv.c != nil && fv.c.ArithUnchecked != "" {
+			fv.trusted["machine arithmetic treated as mathematical in "+fv.name+": "+fv.c.ArithUnchecked] = true
+			st.assume(inr)
+			return Scalar{r}
+		}
+		fv.oblige(st, fmt.Sprintf("no-overflow #%d", fv.ordinal("no-overflow", in)), inr, pos)
 		return Scalar{r}
 	}
 	switch op {
